@@ -426,3 +426,166 @@ def walk_shallow(node):
         if isinstance(n, (ast.FunctionDef, ast.AsyncFunctionDef, ast.ClassDef, ast.Lambda)):
             continue
         todo.extend(ast.iter_child_nodes(n))
+
+
+# ------------------------------------------------------------------------------------------------ conditions known to hold at a node
+def _atom(test, pol):
+    """-> list of constraints: ('lit', text, polarity) or ('nand', [(text, pol), ...]) meaning "not all of these hold" """
+    from .pm import norm_src
+    if isinstance(test, ast.UnaryOp) and isinstance(test.op, ast.Not):
+        return _atom(test.operand, not pol)
+    if isinstance(test, ast.BoolOp):
+        conj = isinstance(test.op, ast.And)
+        if conj == pol:
+            # (a and b) true / (a or b) false: every operand has the polarity
+            out = []
+            for v in test.values:
+                out += _atom(v, pol)
+            return out
+        # (a and b) false / (a or b) true: at least one operand has the polarity `pol` -> not all have `not pol`
+        lits = []
+        for v in test.values:
+            sub = _atom(v, not pol)
+            if len(sub) != 1 or sub[0][0] != "lit":
+                return []
+            lits.append((sub[0][1], sub[0][2]))
+        return [("nand", lits)]
+    if isinstance(test, ast.Compare) and len(test.ops) == 1:
+        flip = {ast.IsNot: ast.Is, ast.NotEq: ast.Eq, ast.NotIn: ast.In}
+        for k, v in flip.items():
+            if isinstance(test.ops[0], k):
+                pos = ast.Compare(left=test.left, ops=[v()], comparators=test.comparators)
+                return [("lit", str(norm_src(ast.fix_missing_locations(ast.copy_location(pos, test)))), not pol)]
+    return [("lit", str(norm_src(test)), pol)]
+
+
+def implied_literals(node):
+    """{(canonical atom text, polarity)} known to hold whenever `node` executes, from the enclosing branches (elif chains included) and
+    from the guard clauses (`if c: return/raise/continue/break`) that precede it in the enclosing blocks. `x is not None` is the atom
+    `x is None` with polarity False; a failed conjunction whose other operands are known gives the remaining operand."""
+    cons = []
+    child = node
+    p = getattr(node, "_parent", None)
+    while p is not None and not isinstance(p, (ast.FunctionDef, ast.AsyncFunctionDef, ast.Lambda, ast.ClassDef, ast.Module)):
+        if isinstance(p, (ast.If, ast.While)) and child is not p.test:
+            in_body = any(child is s for s in p.body)
+            in_else = any(child is s for s in p.orelse)
+            if in_body:
+                cons += _atom(p.test, True)
+            elif in_else and isinstance(p, ast.If):
+                cons += _atom(p.test, False)
+        # guard clauses before `child` in the block of p that contains it
+        for fld in ("body", "orelse", "finalbody"):
+            blk = getattr(p, fld, None)
+            if isinstance(blk, list) and any(child is s for s in blk):
+                for s in blk:
+                    if s is child:
+                        break
+                    if isinstance(s, ast.If) and not s.orelse and s.body and isinstance(s.body[-1], (ast.Return, ast.Raise, ast.Continue, ast.Break)):
+                        cons += _atom(s.test, False)
+        child = p
+        p = getattr(p, "_parent", None)
+    if isinstance(p, (ast.FunctionDef, ast.AsyncFunctionDef)):
+        for s in p.body:
+            if s is child:
+                break
+            if isinstance(s, ast.If) and not s.orelse and s.body and isinstance(s.body[-1], (ast.Return, ast.Raise)):
+                cons += _atom(s.test, False)
+    lits = {(c[1], c[2]) for c in cons if c[0] == "lit"}
+    changed = True
+    while changed:
+        changed = False
+        for c in cons:
+            if c[0] != "nand":
+                continue
+            unknown = [l for l in c[1] if l not in lits]
+            if len(unknown) == 1 and all((l in lits) for l in c[1] if l is not unknown[0]):
+                neg = (unknown[0][0], not unknown[0][1])
+                if neg not in lits:
+                    lits.add(neg)
+                    changed = True
+    return lits
+
+
+# ------------------------------------------------------------------------------------------------ outcomes of a loop-free function, path by path
+class NotLoopFree(Exception):
+    pass
+
+
+def return_cases(func, max_paths=128):
+    """Enumerate the paths of a loop-free function body. -> list of (kind, value, literals) with kind 'return' / 'raise' / 'fall',
+    value = the returned (raised) expression with the locals assigned on the path substituted (an ast expression or None), literals =
+    frozenset of (atom text, polarity) that hold on the path (same normal form as implied_literals). Whether the function ends in guard
+    clauses, nested if/else or assigns a result variable returned at the end makes no difference."""
+    import copy as _copy
+
+    class Sub(ast.NodeTransformer):
+        def __init__(self, env):
+            self.env = env
+
+        def visit_Name(self, n):
+            if isinstance(n.ctx, ast.Load) and n.id in self.env:
+                return _copy.deepcopy(self.env[n.id])
+            return n
+
+    def subst(e, env):
+        if e is None:
+            return None
+        c = _copy.deepcopy(e)
+        for n in ast.walk(c):
+            for a in ("_ns", "_cn", "_parent"):
+                if hasattr(n, a):
+                    delattr(n, a)
+        return ast.fix_missing_locations(Sub(env).visit(c))
+
+    out = []
+
+    def lits_of(test, pol, env):
+        return [(c[1], c[2]) for c in _atom(subst(test, env), pol) if c[0] == "lit"]
+
+    def run(stmts, env, lits):
+        """-> list of (env, lits) that fall through"""
+        states = [(env, lits)]
+        for st in stmts:
+            nxt = []
+            for env_, lits_ in states:
+                if len(out) > max_paths:
+                    raise NotLoopFree("too many paths")
+                if isinstance(st, ast.Return):
+                    out.append(("return", subst(st.value, env_), frozenset(lits_)))
+                elif isinstance(st, ast.Raise):
+                    out.append(("raise", subst(st.exc, env_), frozenset(lits_)))
+                elif isinstance(st, ast.If):
+                    for pol, body in ((True, st.body), (False, st.orelse)):
+                        new = lits_of(st.test, pol, env_)
+                        if any((t, not p) in lits_ for t, p in new):
+                            continue            # contradicts what is known on this path
+                        nxt += run(body, dict(env_), set(lits_) | set(new))
+                elif isinstance(st, (ast.For, ast.While, ast.AsyncFor)):
+                    raise NotLoopFree("loop")
+                elif isinstance(st, (ast.With, ast.AsyncWith)):
+                    nxt += run(st.body, env_, lits_)
+                elif isinstance(st, ast.Try):
+                    raise NotLoopFree("try")
+                elif isinstance(st, ast.Assign) and len(st.targets) == 1 and isinstance(st.targets[0], ast.Name):
+                    e2 = dict(env_)
+                    e2[st.targets[0].id] = subst(st.value, env_)
+                    nxt.append((e2, lits_))
+                elif isinstance(st, ast.AugAssign) and isinstance(st.target, ast.Name):
+                    e2 = dict(env_)
+                    cur = e2.get(st.target.id, ast.Name(id=st.target.id, ctx=ast.Load()))
+                    e2[st.target.id] = ast.fix_missing_locations(ast.BinOp(left=_copy.deepcopy(cur), op=st.op, right=subst(st.value, env_)))
+                    nxt.append((e2, lits_))
+                else:
+                    e2 = env_
+                    for n in ast.walk(st):
+                        if isinstance(n, ast.Name) and isinstance(n.ctx, ast.Store) and n.id in e2:
+                            e2 = dict(e2)
+                            del e2[n.id]
+                    nxt.append((e2, lits_))
+            states = nxt
+        return states
+
+    for env, lits in run(func.body, {}, set()):
+        out.append(("fall", None, frozenset(lits)))
+    return out
